@@ -32,7 +32,7 @@ def gen_case(case):
     em = asc - desc
     k = r.random()
     res = r.choice([16, 32, 64, 100, 127, 128, 128, 136, 72, 96]) if k < 0.85 else (r.choice([150, 200, 255]) if k < 0.93 else r.choice([256, 300, 512]))
-    mode = r.choice(["square", "square", "square-wide-advance", "proportional", "proportional", "nonsquare-fixed"])
+    mode = r.choice(["square", "square", "square-wide-advance", "proportional", "proportional", "nonsquare-fixed", "mixed-fixed"])
     sizes = []
     n = r.randint(1, 6)
     if mode.startswith("square"):
@@ -41,6 +41,17 @@ def gen_case(case):
     elif mode == "proportional":
         sizes = [(max(1, round(res * r.choice([0.5, 0.75, 1.0, 1.3, 1.5, 2.0]))), res) for _ in range(n)]
         width = 0
+    elif mode == "mixed-fixed":
+        # squares and non-squares of one height under a fixed width, in any order (the squares must still be centred)
+        n = max(n, 2)
+        sizes = [(res, res) if r.random() < 0.6 else (max(1, round(res * r.choice([0.5, 0.75, 1.5]))), res) for _ in range(n)]
+        sizes[r.randrange(n)] = (res, res)
+        if r.random() < 0.6:
+            sizes[0] = (max(1, round(res * r.choice([0.5, 0.75, 1.5]))), res)
+        if all(sz[0] == sz[1] for sz in sizes):
+            sizes[0] = (max(1, round(res * 0.5)), res)
+            sizes[-1] = (res, res)
+        width = int(em * r.choice([1.0, 1.0625, 1.25, 2.0]))
     else:
         sizes = [(max(1, round(res * r.choice([0.5, 0.75, 1.5]))), res) for _ in range(n)]
         width = int(em * r.choice([1.0, 2.0]))
@@ -163,7 +174,7 @@ def run_case(case):
             res["maxes"]["max_horizontal_error_px"] = max(res["maxes"].get("max_horizontal_error_px", 0), eh)
             if eh > 1.0 + 1e-6:
                 res["violations"].append(dict(ctx, what=f"proportional bitmap box is horizontally off the em box: left {left} vs 0, right {right} vs {ideal_right:.2f}", ppem=ppem, mechanism=None))
-        elif mode.startswith("square"):
+        elif mode.startswith("square") or (mode == "mixed-fixed" and w == h):
             centre_err = abs((left + right) / 2 - ideal_right / 2) - slack(ideal_right / 2)
             lim = 1.0 if (fmt != "cbdt" or -128 <= round(ideal_right / 2 - bw / 2) <= 127) else 2.0
             res["maxes"]["max_centring_error_px"] = max(res["maxes"].get("max_centring_error_px", 0), centre_err)
